@@ -306,6 +306,7 @@ let exec (s : t) (verbose : bool) (f : string array) (obs : string option) : str
      | Some p -> Printf.sprintf "%s %s %s %s" (string_of_n p.p_fid) (string_of_n p.p_bid)
                    (string_of_n p.p_off) (string_of_n p.p_size))
   | "files" -> listing s
+  | "flipsweep" -> "done"
   | "hintcheck" ->
     (match s.disk.k_merge with
      | Some { m_marker = Some _; m_hint = Some h; _ } ->
